@@ -34,15 +34,18 @@ LEVEL_TEXT = (
     "reproduced by m' with the same return value, final global memory and external-call trace`: checkAlign (deletion of unused "
     "side-effect-free instructions + insertion of fresh constants: DeleteUnusedInstructionsPass, insertion half of ConstantFolder; no "
     "well-formedness assumption) and checkSubst (operands replaced by operands justified equal by the S6 equations: CSE, merged "
-    "constants, folded integer constant expressions: CommonSubexpressionEliminationPass, replace_by half of ConstantFolder), and their "
-    "composition. Every real output of those three passes is fed through the checkers on every run. For all 9 passes and api.optimize "
+    "constants, folded integer constant expressions, and x+0 / 0+x / x*1 at integer types using (3) the typing invariant `every "
+    "integer-typed local holds a value in the range of its type` (typing_invariant, from the checked facts tyCheck): "
+    "CommonSubexpressionEliminationPass, RemoveAddZeroPass (integer types), replace_by half of ConstantFolder), and their "
+    "composition. Every real output of those four passes is fed through the checkers on every run. For all 9 passes and api.optimize "
     "at levels 0/1/2/s the property itself is evaluated on the real code: Spec.IR executes every entry function before and after on "
     "argument vectors (corpus, front-end produced, generated and pessimised modules) and compares (return, globals, trace); 7 passes "
     "have Lean models (Model.Opt) that must reproduce the real output up to renaming."
 )
 LEVEL_NOTE = (
-    "NOT proved (stated in Props/C02.lean as not shown / notes/C02.md): behaviour preservation of RemoveAddZeroPass (needs a typing "
-    "invariant), the chain rewrite (y+c1)+c2 of ConstantFolder, CJumpPass, LoadAfterStorePass, CleanPass, Mem2RegPromotor, "
+    "NOT proved (notes/C02.md): behaviour preservation of RemoveAddZeroPass on pointer/float types (p+0 is NOT p in Spec.IR with "
+    "16-bit pointers; pointer values are not range-checked), the chain rewrite (y+c1)+c2 of ConstantFolder, CJumpPass, "
+    "LoadAfterStorePass, CleanPass, Mem2RegPromotor, "
     "TailCallOptimization and the level pipelines: for these only the always-on failing-input search runs (absence of a failing input "
     "proves nothing). The validators do not cover removal of unused alloc/literal (memory layout changes), pointer/float constant "
     "folding, indirect-callee replacement. Trusted: Lean kernel; axioms propext/Classical.choice/Quot.sound; Spec.IR (validated "
@@ -79,7 +82,7 @@ MODELLED = ["addzero", "constfold", "cse", "cjump", "delunused", "las", "clean"]
 SINGLE = MODELLED + ["mem2reg", "tailcall"]
 LEVELS = ["O0", "O1", "O2", "Os"]
 # pass -> Lean-verified validator that every real output of the pass goes through (Model.OptCheck)
-VALIDATED = {"delunused": ["align"], "cse": ["subst"], "constfold": ["align", "subst"]}
+VALIDATED = {"delunused": ["align"], "cse": ["subst"], "addzero": ["subst"], "constfold": ["align", "subst"]}
 
 
 def pass_object(name):
@@ -294,6 +297,7 @@ def gen_texts(ctx, n):
         dict(max_funcs=2, total_stmts=30, int_types=[irgen.ir.i32, irgen.ir.u8, irgen.ir.i64]),
         dict(floats=True),
         dict(max_funcs=1, total_stmts=25, max_depth=2, calls=False),
+        dict(allocas=False, globals=False, ptr_params=False, copyblob=False, max_funcs=2, total_stmts=40),
     ]
     for k in range(n):
         kw = cfgs[k % len(cfgs)]
@@ -351,7 +355,7 @@ def argvecs(ctx, entries, only, fixed):
         if fixed and name in fixed:
             vecs = fixed[name]
         else:
-            vecs = irgen.gen_args(ctx.rng, e, 3)
+            vecs = irgen.gen_args(ctx.rng, e, 3 if ctx.thorough else 2)
         for a in vecs:
             cases.append((e, a))
     return cases
@@ -495,6 +499,30 @@ def outside_validator_class(p, before, after):
         kinds = lambda t: sorted(i[0] for f in T.funcs_of(T.parse(t)) for b in T.blocks_of(f) for i in b[2:]
                                  if i[0] in ("alloc", "literal"))
         return kinds(before) != kinds(after)
+    if p == "addzero":
+        # not covered: pointer arithmetic `p + 0`, `i * 1` at type ptr (pointer values are not range-checked; with a
+        # 16-bit pointer configuration `@g + 0` really differs from `@g` in Spec.IR) and float `x * 1.0`
+        tb, ta = T.parse(before), T.parse(after)
+        for fb, fa in zip(T.funcs_of(tb), T.funcs_of(ta)):
+            defs = T.def_table(fb)
+            for bb, ba in zip(T.blocks_of(fb), T.blocks_of(fa)):
+                for i, j in zip(bb[2:], ba[2:]):
+                    if i == j:
+                        continue
+                    for (c, k), (c2, k2) in zip(T.operand_slots(i), T.operand_slots(j)):
+                        x = c[k]
+                        while x != c2[k2]:
+                            d = defs.get(x[1:]) if x.startswith("%") else None
+                            if d is None or d[2] is None or d[2][0] != "binop":
+                                break
+                            if d[2][2] not in T.INT_TYPES:
+                                return True
+                            # follow the copy: the operand that is not the constant 0 / 1
+                            a, b = d[2][4], d[2][5]
+                            da = defs.get(a[1:]) if a.startswith("%") else None
+                            isc = lambda q: q is not None and q[2] is not None and q[2][0] == "const"
+                            x = b if (isc(da) and d[2][3] == "add" and da[2][3] == "0") else a
+        return False
     if p == "constfold":
         # not covered by `checkSubst`: the chain rewrite (y+c1)+c2 -> y+c3 (an operand becomes a value that
         # existed before), pointer / float constants, casts from non-integers
